@@ -1,7 +1,7 @@
 (* C03 - the reported hierarchy is the first-match deepest path of the detector tree.
    Stated for every tree and every verdict function (hence for the built-in tree, for trees
    enlarged by Extend, and for arbitrary detector predicates), then instantiated on Detect. *)
-From Verif Require Import Base.Bytes Model.Types Model.Tree Model.Detect Gen.TreeData Proofs.TreeP.
+From Verif Require Import Base.Bytes Model.Types Model.Tree Model.Detect Gen.TreeData Proofs.TreeP Spec.SpecOrder Model.Order.
 
 (* the walk computes exactly the declarative first-match path *)
 Theorem C03_walk_is_first_match_path :
@@ -34,6 +34,28 @@ Theorem C03_detect_is_path :
   forall orc l x, Path (verdict orc (hdr l x) l) tree0 (detect_path orc l x).
 Proof. intros orc l x. apply walk_sound. Qed.
 Print Assumptions C03_detect_is_path.
+
+(* "in priority order": the order of the sub-formats is a specification constant (Spec/SpecOrder.v, hand-maintained).
+   Regenerated obligation: the tree of the current source lists the formats the specification names in the specified
+   relative order under every parent (formats may be added or removed; two named siblings may not change places) ... *)
+Theorem C03_priority_order_is_the_specified_one : order_respected = true.
+Proof. vm_compute. reflexivity. Qed.
+Print Assumptions C03_priority_order_is_the_specified_one.
+
+(* ... so that Detect's path is the first-match path in the SPECIFIED order, for every input, limit and oracle *)
+Theorem C03_detect_is_path_in_specified_order :
+  forall orc l x, Path (verdict orc (hdr l x) l) tree_pinned (detect_path orc l x).
+Proof.
+  assert (E : tree_pinned = tree0) by (vm_compute; reflexivity).
+  intros orc l x. rewrite E. apply walk_sound.
+Qed.
+Print Assumptions C03_detect_is_path_in_specified_order.
+
+(* the re-ordering is not vacuous: two named siblings that changed places are put back *)
+Example C03_pin_example :
+  let t := id_of_var "tar" in let x := id_of_var "xar" in
+  reorder "root" [T x []; T 4000 []; T t []] = [T t []; T 4000 []; T x []] /\ t <> x.
+Proof. vm_compute. split; [reflexivity|discriminate]. Qed.
 
 (* non-vacuity: a concrete three-level path *)
 Example C03_example :
